@@ -858,6 +858,7 @@ pub fn env_main(sc: Scenario) {
         }
         world::log("\"ev\":\"ServerDrop\"".to_string());
         drop(server);
+        world::log("\"ev\":\"ServerDropped\"".to_string());
         world::wait_phase(2);
         finish(&sh, &addr, clis, sc.connect_after_drop);
         return;
@@ -872,6 +873,7 @@ pub fn env_main(sc: Scenario) {
     }
     world::log("\"ev\":\"ServerDrop\"".to_string());
     drop(server);
+    world::log("\"ev\":\"ServerDropped\"".to_string());
     finish(&sh, &addr, clis, sc.connect_after_drop);
 }
 
